@@ -66,7 +66,9 @@ static std::vector<std::vector<Region>> regionSets() {
   return v;
 }
 
-static void enumerateAll(const std::function<void(const Spec &)> &f) {
+static void enumerateAll(const std::function<void(const Spec &)> &f0) {
+  // every 11th expansion instance also scaled by (9001, 11003): each cell area stays below 2^31, row and total areas do not
+  auto f = withMagnitudes(f0, 11, {{1, 9001, 11003}}, [](const Spec &s) { return s.aux == 0 || s.aux == 1; });
   auto cs = circuits();
   size_t nRegionSets = regionSets().size();
   for (auto &c : cs) {
